@@ -1,5 +1,4 @@
 import json
-from json import JSONDecodeError
 from typing import List, Optional, Union
 
 from .base64url_to_bytes import base64url_to_bytes
@@ -24,7 +23,7 @@ def parse_authentication_options_json(
     if isinstance(json_val, str):
         try:
             json_val = json.loads(json_val)
-        except JSONDecodeError:
+        except ValueError:  # JSONDecodeError, or the int digit limit on huge literals
             raise InvalidJSONStructure("Unable to decode options as JSON")
 
     if not isinstance(json_val, dict):
